@@ -323,6 +323,8 @@ def run_crawl(start_urls, site, seed=0, concurrent=1, extra=(), workdir=None, po
         logging.shutdown()
         for h in list(logging.getLogger().handlers):
             logging.getLogger().removeHandler(h)
+        logging.getLogger().addHandler(logging.NullHandler())
+        logging.getLogger().setLevel(logging.WARNING)
         if own:
             shutil.rmtree(workdir, ignore_errors=True)
     return res
